@@ -128,6 +128,10 @@ class SchemaField:
 
         try:
             dtm.datetime.strptime(value, format)
+            layout = re.escape(format).replace("%Y", "[0-9]{4}")
+            layout = layout.replace("%f", "([0-9]{3}|[0-9]{6})")
+            if not re.fullmatch(re.sub("%[mdHMS]", "[0-9]{2}", layout), value):
+                return "value is not in the fixed-width FIX layout"
             return None  # all good
         except Exception as exc:
             return str(exc)
